@@ -150,16 +150,23 @@ structure Chain where
   st      : Nat → Stage
   /-- ghost: what `Chain::Wait` has consumed from queue 0 -/
   drained : List Item
+  /-- the loop body of pass-through stage `i` (`1 ≤ i < m`) as a function of everything the stage has received
+  so far and the content of the current block: any deterministic, possibly STATEFUL, stream transducer -/
+  tr      : Nat → List Item → Nat → Nat := fun i _ v => xform (i + 1) v
 
 def Chain.init (b m : Nat) (data : List Nat) : Chain :=
   { b := b, m := m, data := data, q := fun _ => [], main := .fill b, st := fun _ => {}, drained := [] }
 
-/-- loop body of stage `i` on its `k`-th block with content `v`: `some v'` = pass the block on with content
-`v'`, `none` = call `Link::Poison()` and leave the loop -/
-def Chain.body (c : Chain) (i k v : Nat) : Option Nat :=
-  if i = 0 then c.data[k]?
+/-- a chain whose pass-through stages run the given transducers -/
+def Chain.initT (b m : Nat) (data : List Nat) (tr : Nat → List Item → Nat → Nat) : Chain :=
+  { Chain.init b m data with tr := tr }
+
+/-- loop body of stage `i` on a block with content `v` after having received `hist`: `some v'` = pass the block on
+with content `v'`, `none` = call `Link::Poison()` and leave the loop -/
+def Chain.body (c : Chain) (i : Nat) (hist : List Item) (v : Nat) : Option Nat :=
+  if i = 0 then c.data[hist.length]?
   else if i = c.m then some v
-  else some (xform (i + 1) v)
+  else some (c.tr i hist v)
 
 /-- `Link::~Link` -/
 def exitLoop (s : Stage) : Stage :=
@@ -167,11 +174,11 @@ def exitLoop (s : Stage) : Stage :=
   | .val _ => { s with pc := .finished }
   | .poison => if s.poisoned then { s with pc := .finished } else { s with pc := .dtor }
 
-/-- the loop condition `l` (operator bool) followed by the body, for the `k`-th block -/
-def Chain.loopTest (c : Chain) (i k : Nat) (s : Stage) : Stage :=
+/-- the loop condition `l` (operator bool) followed by the body -/
+def Chain.loopTest (c : Chain) (i : Nat) (hist : List Item) (s : Stage) : Stage :=
   match s.cur with
   | .val v =>
-    match c.body i k v with
+    match c.body i hist v with
     | some v' => { s with cur := .val v', pc := .incProduce }
     | none => { s with pc := .poisonCall }
   | .poison => exitLoop s
@@ -192,7 +199,7 @@ def Chain.stageStep (c : Chain) (i : Nat) : Option Chain :=
     | none => none
     | some (x, rest) =>
       let s1 := { s with poisoned := false, cur := x, inp := s.inp ++ [x] }
-      some { c with q := upd c.q i rest, st := upd c.st i (c.loopTest i s.inp.length s1) }
+      some { c with q := upd c.q i rest, st := upd c.st i (c.loopTest i s.inp s1) }
   | .incProduce =>
     match fifoPush c.b (c.q (c.outQ i)) s.cur with
     | none => none
@@ -205,7 +212,7 @@ def Chain.stageStep (c : Chain) (i : Nat) : Option Chain :=
       let s1 := { s with cur := x, inp := s.inp ++ [x] }
       let s2 := match x with
         | .poison => { s1 with poisoned := true, pc := .incPoison }
-        | .val _ => c.loopTest i s.inp.length s1
+        | .val _ => c.loopTest i s.inp s1
       some { c with q := upd c.q i rest, st := upd c.st i s2 }
   | .incPoison =>
     match fifoPush c.b (c.q (c.outQ i)) s.cur with
